@@ -468,6 +468,31 @@ theorem C18_molfile_set_structure (l0 l1 l2 : Line) (old : List Line) (m : Mol) 
     have hemp : (body ++ [mEnd]).isEmpty = false := by cases body <;> rfl
     simp only [molGetStructure, hc', hemp, Bool.false_eq_true, if_false, hread]
 
+/-- **Full `M  CHG` lines.**  Every charge line but the last announces and holds exactly 8 entries
+(9, 16, 17, … charges fill lines of 8 and one remainder line). -/
+theorem C18_chg_full_lines (m : Mol) :
+    ∀ b ∈ (batched nChargesPerLine (chargePairs 0 (m.atoms.map (·.charge)))).dropLast, b.length = 8 :=
+  batchedF_full nChargesPerLine (by decide) _ _ (Nat.le_refl _)
+
+/-- **A `MOLFile` header edited in place is what gets written.**  `file.header` parses the three
+header lines once and hands out that object; after editing it in place (`g`), `write()`/`str()`/
+`copy()` emit the edited header followed by the untouched CTAB, and — if the edited header is
+valid — a reader of that text gets exactly the edited header back. -/
+theorem C18_molfile_header_edit (f : MolFile) (h : Header) (g : Header → Header)
+    (hh : f.cached = some h ∨ (f.cached = none ∧ Header.deserialize (f.lines.take 3) = .ok h))
+    (hv : ValidHeader (g h)) :
+    ∃ f', f.editHeader g = .ok f' ∧ f'.lines = f.lines ∧
+      f'.written = .ok ([(g h).molName, headerLine2 (g h), (g h).comments] ++ f.lines.drop 3) ∧
+      Header.deserialize ([(g h).molName, headerLine2 (g h), (g h).comments] ++ f.lines.drop 3) = .ok (g h) := by
+  have hd := header_deserialize_lines (g h) hv (f.lines.drop 3)
+  rcases hh with hc | ⟨hc, hp⟩
+  · refine ⟨{ f with cached := some (g h) }, ?_, rfl, ?_, hd⟩
+    · simp [MolFile.editHeader, MolFile.getHeader, hc, Except.map]
+    · simp [MolFile.written, header_serialize_eq (g h) hv, Except.map]
+  · refine ⟨{ f with cached := some (g h) }, ?_, rfl, ?_, hd⟩
+    · simp [MolFile.editHeader, MolFile.getHeader, hc, hp, Except.map]
+    · simp [MolFile.written, header_serialize_eq (g h) hv, Except.map]
+
 /-! ## Coordinates after the float32 store -/
 
 /-- **"Coordinates to 0.0001", over ℚ.**  Let `x = q.val` be a float32 (`IsF32`: `m·2^e`,
@@ -600,5 +625,11 @@ example :
     molSetStructure ["n".toList, [], [], mEnd] bad 0 .auto = (["n".toList, [], [], mEnd], some .badStructure) ∧
     molSetStructure ["n".toList, [], [], mEnd] exMol 0 .unknown = (["n".toList, [], [], mEnd], some .valueError) ∧
     molSetStructure ["n".toList, [], [], mEnd] exMol 4 .auto = (["n".toList, [], [], mEnd], some .keyError) := by decide
+
+/-- a header read from the lines, edited in place, then written -/
+example :
+    let f : MolFile := ⟨(exHeader.serialize.toOption.getD []) ++ ["  0  0".toList, mEnd], none⟩
+    (f.editHeader (fun h => { h with comments := "edited".toList })).bind MolFile.written
+      = .ok ([exHeader.molName, headerLine2 exHeader, "edited".toList] ++ ["  0  0".toList, mEnd]) := by decide
 
 end BiotiteModel.C18
